@@ -879,6 +879,13 @@ void sim_answer_query(struct sim *s, uint8_t qtype, uint8_t qver, uint16_t qsess
 			case 7:
 				pl.override = AO_CLOSE; /* takes the query and hangs up without a byte */
 				break;
+			case 8:
+				/* answers, but every answer breaks off with an Error Report behind the Cache Response */
+				pl.defect = D_ERROR_REPORT_MID;
+				pl.pos = 1;
+				pl.param = 1;
+				close_after = true; /* ... and the cache hangs up */
+				break;
 			default:
 				break;
 			}
